@@ -121,6 +121,8 @@ def run_type(i, label, spec, tier, st):
         try:
             dm = apischema.deserialization_method(rz.tp, **kw)
             sm = apischema.serialization_method(rz.tp, **kw)
+            # the same type compiled once more in the same cache lifetime, under a layer of constraints no value reaches
+            dm2 = apischema.deserialization_method(rz.tp, schema=HARMLESS, **kw)
         except Exception:
             st.count("compile_error(reported by C01/C04)")
             return
@@ -141,9 +143,9 @@ def run_type(i, label, spec, tier, st):
                 st.violation(dict(base, signature={"kind": "serialize_exception", "exc": type(e).__name__, "shape": dc.shape_of(label)}, what=f"serialize / json.dumps raised {e!r}"[:300], source=rz.source))
                 continue
             st.case(dc.shape_of(label), (ap, al), "v->d->v", vi)
-            for tag, dd in (("direct", data), ("json", data2)):
+            for tag, dd in (("direct", data), ("json", data2), ("second_method", data2)):
                 try:
-                    back = dm(dd)
+                    back = (dm2 if tag == "second_method" else dm)(dd)
                 except ValidationError as e:
                     st.violation(dict(base, signature={"kind": "roundtrip_rejected", "shape": dc.shape_of(label), "via": tag}, what=f"deserialize(serialize(v)) rejected: {data!r} -> {dc.impl_errors(e)[:3]}"[:400], source=rz.source))
                     break
@@ -193,6 +195,9 @@ def run_type(i, label, spec, tier, st):
                 st.violation(dict(base, signature={"kind": "redeserialize_differs", "shape": dc.shape_of(label)}, what=f"d={d!r} -> {out!r} -> {s!r} -> {out2 if k2 == 'ok' else dc.impl_errors(out2)[:2]!r}"[:400], source=rz.source))
     case.drop()
     dc.periodic_reset(i)
+
+
+HARMLESS = apischema.schema(max=10**12, max_len=10**6, max_items=10**6, max_props=10**6)
 
 
 def _has_key(d, names) -> bool:
